@@ -230,6 +230,10 @@ def regenerate_anchors():
     from . import pytrans
 
     pytrans.regenerate(REPO, COQ)
+    # the imperative wrappers (exhaustion.py, composition.py) translated by state passing (Generated/PyCtrl.v)
+    from . import pytrans_ctrl
+
+    pytrans_ctrl.regenerate(REPO, COQ)
 
 
 def coq_build(targets: list[str] | None = None, timeout=3000):
